@@ -314,6 +314,134 @@ def run(chk, prog):
                        'the validator accepted by its ".name" suffix rule but that is neither in scope nor unique is '
                        'emitted as a path that resolves to nothing' % len(lookups), rdt.loc(bad[0]) if bad else None)
 
+    # ---------------- line numbers attached to errors
+    RL = 'C06.error-lines-are-index-plus-one'
+    chk.rule(RL, 'Every line number attached to a CompilerError (with_line / with_line_override) is the index of the line '
+             'being parsed plus the constant 1 - one index source, no other arithmetic, no value taken from another error: '
+             'an index of the slice is below its length, so the number names a line that exists; sums of two positions or '
+             'rebased inner numbers can point past the end of the input.')
+    n_wl = 0
+
+    def line_prov(fn_, op_, depth=0):
+        at = set(tr.prov(fn_, op_))
+        ups = [a[6:] for a in at if a.startswith('upvar:')]
+        if ups and fn_.parent in prog.fns and depth < 3:
+            par = prog.fns[fn_.parent]
+            for u in ups:
+                u = u.lstrip('*')
+                for d_ in par.body['dbg']:
+                    if d_['n'] == u and 'p' not in d_['pl']:
+                        at.discard('upvar:' + u)
+                        at.discard('upvar:*' + u)
+                        at |= line_prov(par, {'k': 'copy', 'pl': {'l': d_['pl']['l']}}, depth + 1)
+        at.discard('closure_env')
+        return at
+    def index_plus_one(fn_, op_, depth):
+        raw = tr.prov(fn_, op_)
+        if len({a for a in raw if a.startswith(('upvar:', 'arg:'))}) > 1:
+            return False           # a sum of two positions
+        at = line_prov(fn_, op_)
+        ops_ = {a for a in at if a.startswith('op:')}
+        srcs = {a for a in at if a.startswith(('arg:', 'upvar:'))}
+        other = {a for a in at if a.startswith(('call:', 'field:', 'cast:', 'agg:'))}
+        consts_ = {a for a in at if a.startswith('const:')}
+        if ops_ and ops_ <= {'op:AddWithOverflow', 'op:Add'} and consts_ <= {'const:0', 'const:1'} and not other \
+                and len(srcs) <= 1 and 'const:1' in consts_:
+            return True
+        # a line number received as a parameter and passed on unchanged: decided at the callers
+        if not ops_ and not other and not consts_ and len(srcs) == 1 and next(iter(srcs)).startswith('arg:') \
+                and depth < 2 and not fn_.parent:
+            n_ = int(next(iter(srcs))[4:])
+            cl = prog.callers(fn_.short)
+            return bool(cl) and all(len(ct['args']) >= n_ and index_plus_one(cf, ct['args'][n_ - 1], depth + 1)
+                                    for cf, cb, ct in cl)
+        return False
+    for fn in sorted(prog.fns.values(), key=lambda f: f.p):
+        if fn.crate != 'bladeink_compiler':
+            continue
+        if prog.root_fn(fn).short.startswith('CompilerError::'):
+            continue
+        ords_ = {}
+        for bb, t in fn.calls():
+            cs = callee_short(t)
+            if cs in ('CompilerError::with_line', 'CompilerError::with_line_override') and len(t['args']) > 1:
+                n_wl += 1
+                at = line_prov(fn, t['args'][1])
+                ok = index_plus_one(fn, t['args'][1], 0)
+                root = prog.root_fn(fn).short
+                i_ = ords_.get(root, 0)
+                ords_[root] = i_ + 1
+                chk.decide(RL, chk.key(RL, root, cs.rsplit('::', 1)[-1], '#%d@%s' % (i_, fn.short.rsplit('::', 1)[-1])), ok,
+                           'index + 1', '%s attaches a line number that is not "index of the current line + 1" (provenance '
+                           '%s): it can name a line beyond the end of the input' % (root, sorted(at)[:6]), fn.loc(bb))
+    chk.floor(RL, 'line numbers attached to compiler errors', n_wl, 15)
+
+    # ---------------- character positions are not byte offsets
+    RU = 'C06.no-char-position-as-byte-offset'
+    chk.rule(RU, 'No &str / String of the compiler is sliced or indexed at a position that counts characters: a range bound '
+             'whose lineage goes through str::chars() (enumerate over chars, a collected Vec<char>) or a counter that also '
+             'indexes a Vec<char> / [char]. On input with a multi-byte character before that position the slice is wrong or '
+             'panics ("byte index is not a char boundary"), and the compiler must never panic.')
+    ltu = Tracer(prog, transparent=lambda cs: True, use_summaries=False)
+
+    def feeding_locals(fn_, op_, seen=None, depth=0):
+        out_, seen = set(), seen if seen is not None else set()
+        if op_.get('k') not in ('copy', 'move'):
+            return out_
+        l_ = op_['pl']['l']
+        if l_ in seen or depth > 10:
+            return out_
+        seen.add(l_)
+        if fn_.local_name(l_):
+            out_.add(fn_.local_name(l_))
+        for df in du(fn_).defs.get(l_, []):
+            if df['kind'] == 'assign':
+                rv = df['rv']
+                for k_ in ('op', 'a', 'b'):
+                    o_ = rv.get(k_)
+                    if isinstance(o_, dict):
+                        out_ |= feeding_locals(fn_, o_, seen, depth + 1)
+                for o_ in rv.get('ops', []):
+                    out_ |= feeding_locals(fn_, o_, seen, depth + 1)
+        return out_
+    n_str_idx = 0
+    for fn in sorted(prog.fns.values(), key=lambda f: f.p):
+        if fn.crate != 'bladeink_compiler':
+            continue
+        char_counters, str_sites = set(), []
+        for bb, t in fn.calls():
+            trt = t['f'].get('trait') or ''
+            if not (trt.endswith('ops::index::Index') or trt.endswith('ops::index::IndexMut')) or len(t['args']) < 2:
+                continue
+            st = t['f'].get('self', '') or ''
+            if st == 'str' or st.endswith('string::String'):
+                str_sites.append((bb, t))
+            elif 'Vec<char>' in st or st in ('[char]',):
+                char_counters |= feeding_locals(fn, t['args'][1])
+        for bb, t in fn.terms():
+            # direct indexing chars[i] of a Vec<char> deref'd slice shows as a bounds Assert on a [char] length
+            if t['k'] == 'assert' and t.get('ak') == 'bounds':
+                if any('char' in a and ('Vec' in a or 'chars' in a) for a in ltu.prov(fn, t['a'])):
+                    char_counters |= feeding_locals(fn, t['b'])
+        ords_ = 0
+        for bb, t in str_sites:
+            n_str_idx += 1
+            lin = ltu.prov(fn, t['args'][1])
+            via_chars = 'via:str::chars' in lin and 'via:str::char_indices' not in lin and not any(
+                a.endswith('::len_utf8') for a in lin) and any(
+                a.startswith('via:') and a.rsplit('::', 1)[-1] in ('enumerate', 'position', 'count', 'rposition')
+                for a in lin)
+            mixed = sorted(feeding_locals(fn, t['args'][1]) & char_counters)
+            ok = not via_chars and not mixed
+            chk.decide(RU, chk.key(RU, prog.root_fn(fn).short, '#%d' % ords_), ok, 'byte position',
+                       '%s slices a string at a position that counts characters (%s): non-ASCII input before it makes the '
+                       'compiler slice the wrong text or panic' % (prog.root_fn(fn).short, (
+                           'the counter%s %s also index%s a Vec<char>' % ('s' if len(mixed) > 1 else '', ', '.join(mixed),
+                                                                          '' if len(mixed) > 1 else 'es')) if mixed
+                           else 'derived from iterating chars()'), fn.loc(bb))
+            ords_ += 1
+    chk.floor(RU, 'string slicing / indexing sites in the compiler', n_str_idx, 20)
+
     # ---------------- reject unknown
     for name, what in (('ValidationContext::check_target', 'divert target'),
                        ('ValidationContext::check_function_call_target', 'called function')):
